@@ -437,7 +437,7 @@ Section Stmts.
       match orelse with
       | [] => BoolOp And [test; wrap cfg body]
       | _ =>
-          let semi := BoolOp And [UnaryOp Not (UnaryOp Not test); BoolOp Or [wrap cfg body; cint 1]] in
+          let semi := BoolOp And [UnaryOp Not (UnaryOp Not test); EList [wrap cfg body]] in
           match wrap cfg orelse with
           | BoolOp Or vs => BoolOp Or (semi :: vs)           (* a long elif chain stays flat *)
           | oe => BoolOp Or [semi; oe]
@@ -485,7 +485,9 @@ Section Stmts.
         let me := mkLoop LWhile p (uses_flag mi_loop b) has_break in
         let! b' := block (mkCtx n (me :: c_loops c) (c_ret_used c)) p 0 0 b in
         let! o' := block c p 1 0 o in
-        let! t := tr n test in
+        let! t0 := tr n test in
+        (* an and/or condition answers True/False: takewhile() must not test the deciding operand again *)
+        let t := match test with BoolOp _ _ => IfExp t0 ctrue cfalse | _ => t0 end in
         let brk := break_name p in
         let body := (if lp_intr_used me then [NamedExpr (intr_name p) cfalse] else []) ++ b' in
         let test' := if has_break then BoolOp And [UnaryOp Not (Name brk); t] else t in
